@@ -60,6 +60,10 @@ def run(ctx: Ctx):
     model = ctx.model
     from .common_node import names_resolve
     names_resolve(ctx, "C10-RN")
+    from . import c08 as _c08
+    ctx.include(_c08.run, {"C08-R5"}, "C10-R12",
+                "add_application files every peer under its own realm and the realms given, each "
+                "with a list of its own (the table route_request selects from)", floor=1)
     from .recvmsg import received_messages_reach_dispatch
     received_messages_reach_dispatch(ctx, "C10-R11d", answers=True, requests=False)
     nc = model.cls("node.node", "Node")
